@@ -280,3 +280,7 @@ func vh_C04_L4_connect_calls_return_when_transport_closes() {
 // C04.L5: what the handshake learns about the peer's checksum acceptance comes from a
 // well-formed parameter naming the DTLS method in the latest INIT only (= C13.L3b).
 func vh_C04_L5_zero_checksum_learned_from_init() { vh_C13_L3_learned_only_from_wellformed_parameter() }
+
+// C04.L6: agreement is reached with the peer that completes the handshake: capabilities
+// learned from an earlier INIT do not survive a later one (= C17.L1b).
+func vh_C04_L6_agreement_follows_latest_init() { vh_C17_L1_framing_follows_latest_init() }
